@@ -195,6 +195,29 @@ pub fn gen(tier: &str, seed: u64, out: &mut dyn FnMut(Value)) {
         k += 1;
         wrap(c, if k % 50 == 0 { procs } else { 0 }, out)
     });
+    // (2b) operand names that differ only by surrounding spaces are different operands (a quoted YAML key keeps its
+    // spaces): nothing may merge them, in whatever order the map is visited
+    for _ in 0..(if thorough { 2000 } else { 200 }) {
+        let keys = ["$a", "$a ", " $a", "$a  ", "$b", "$b "];
+        let mut matches = vec![];
+        let mut picked: Vec<&str> = vec![];
+        for k in keys {
+            if rng.chance(1, 2) {
+                picked.push(k);
+                matches.push(json!([k, format!(".f{} == '{}'", rng.below(3), rng.below(2))]));
+            }
+        }
+        if matches.is_empty() {
+            continue;
+        }
+        let rule = json!({"name": "r", "matches": matches, "condition": *rng.pick(&["any of them", "all of them", "none of them", "1 of them", "2 of them", "all of $a", "any of $b"])});
+        let mut events = vec![];
+        for m in 0..8 {
+            events.push(json!({"source": "s", "id": 1, "fields": [[["f0"], {"s": (m & 1).to_string()}], [["f1"], {"s": ((m >> 1) & 1).to_string()}], [["f2"], {"s": ((m >> 2) & 1).to_string()}]]}));
+        }
+        k += 1;
+        wrap(json!({"rules": [rule], "events": events, "tag": "operand names differing by spaces", "nt": true}), if k % 50 == 0 { procs } else { 0 }, out);
+    }
     // (3) templates whose texts mention other templates / themselves, used in matches and conditions
     const TN: [&str; 5] = ["a", "b", "ab", "c", "a}}b"];
     const TT: [&str; 9] = ["1", "{{b}}", "{{a}}", "x{{ab}}y", "", "{{c}}{{a}}", "2", "}}", "{{"];
